@@ -11,7 +11,11 @@ from common import clist, cpair, cbool
 
 def run_history(fcp, unroll, impls):
     from fcp.encoding import make_encoder, PackedEncoderContext
-    enc = make_encoder("packed", fcp, PackedEncoderContext().with_unroll_arrays(unroll))
+    # one base context, from which the context for this encoder and - afterwards - one with the opposite setting (for a second
+    # encoder that is never used) are derived, as a program that needs both layouts does: a derived context is its own object
+    base = PackedEncoderContext()
+    enc = make_encoder("packed", fcp, base.with_unroll_arrays(unroll))
+    make_encoder("packed", fcp, base.with_unroll_arrays(not unroll))
     out = []
     for im in impls:
         try:
